@@ -323,6 +323,8 @@ static int sim_validcb(cfg_t *cfg, cfg_opt_t *opt)
 	std::string entry = std::string("vcb ") + esc(opt->name) + " n=" + std::to_string(n);
 	if (n)
 		entry += " last=" + value_repr(opt, n - 1);
+	else if (opt->simple_value.ptr && opt->type != CFGT_SEC)
+		entry += " last=" + value_repr(opt, 0); // bound to an application variable: no value list, the getter reads the variable
 	int verdict;
 	cb_tick(entry, &verdict, cfg);
 	return verdict;
